@@ -98,10 +98,10 @@ package glyf
 //@     invariant isnil(components) || fresh(components)
 //@     decreases ite(done, 0, 1 + len(data))
 
-//@ func decodeGlyph(data []byte) (g *Glyph, err error)   props: C02 C11
+//@ func decodeGlyph(data []byte) (g *Glyph, err error)   props: C02 C11 C01
 //@   modifies nothing
 
-//@ func Decode(enc *Encoded) (gg Glyphs, err error)   props: C02 C11
+//@ func Decode(enc *Encoded) (gg Glyphs, err error)   props: C02 C11 C01
 //@   requires enc != nil
 //@   ensures err == nil ==> len(gg) >= 1
 //@   modifies nothing
